@@ -9,7 +9,8 @@ RULE = ("tables mixing plain columns with one or more 'special' columns: sizes (
         "type modulo white space with balanced brackets, the size where one is given, the options kept, and every OTHER column "
         "equal to what it is when the special column is replaced by a plain 'int' column. non-trivial = distinct DDL with a "
         "nested (depth >= 2) or sized/array type")
-PARTIAL = ["the grammar side (tid absorbing LT/RT/ID/COMMAT to any depth) is explored; proved: the bracket counter moves by exactly "
+PARTIAL = ["the grammar side (tid absorbing LT/RT/ID/COMMAT to any depth) is modelled (p_c_type, p_tid, p_column: every type and size form) and tied by "
+           "correspondence D/F on the generated statements, not under a theorem; proved: the bracket counter moves by exactly "
            "#'<' - #'>' per word for all counts and touches no other flag, a word opening and closing brackets is typed LT"]
 ASSUMES = []
 
@@ -136,6 +137,12 @@ def run(ctx, res):
             res.violation("input", bad, ddl=ddl, oracle="types")
         elif "<" in ty or ety is not None or "[" in ty:
             res.nontrivial.add(ddl)
+    # ---- the model of p_c_type / p_tid / p_column (every type form) against the implementation on the same statements ---------------
+    if ctx.model:
+        sub = [c[0] for c in cases[:: (2 if ctx.thorough else 4)]]
+        st = ctx.impl.map([{"op": "statements", "ddl": x} for x in sub])
+        corr_parse(ctx, res, [s_ for a in st if "ok" in a for s_ in a["ok"]["statements"]])
+        corr_run(ctx, res, sub)
     res.samples.append({"ddl": cases[0][0]})
     res.samples.append({"ddl": cases[3][0]})
 
